@@ -131,6 +131,7 @@ type gen struct {
 	info map[int32]fdInfo
 	size uint32
 	next uint32
+	pct  int
 	nb   int // number of boundary choices (arguments or fields of input structures)
 	seq  int
 }
@@ -140,17 +141,27 @@ func (g *gen) l(s string) string {
 	return fmt.Sprintf("%s#%d", s, g.seq)
 }
 
-// hostile decides whether one argument (or field) takes a boundary value. Functions with few
-// parameters get a higher rate so that their share of non-trivial cases is comparable.
+// hostile decides whether one argument (or one field of an input structure) takes a boundary
+// value. The rate is set per function so that about one decision per call is hostile: most
+// calls have one or two boundary values and otherwise well-formed arguments, which lets them get
+// past the validation of the other parameters.
 func (g *gen) hostile(what string) bool {
-	pct := 30
-	switch len(g.fn.Params) {
-	case 1:
-		pct = 65
-	case 2:
-		pct = 42
+	if g.pct == 0 {
+		d := len(g.fn.Params)
+		for _, p := range g.fn.Params {
+			switch p.Role {
+			case wasiabi.PtrIovsIn, wasiabi.PtrIovsOut:
+				d += 3
+			case wasiabi.PtrSubs:
+				d += 5
+			case wasiabi.PtrPath:
+				d++
+			}
+		}
+		g.pct = 110 / max(d, 1)
+		g.pct = min(max(g.pct, 8), 45)
 	}
-	return chance(g.t, g.l("hostile-"+what), pct)
+	return chance(g.t, g.l("hostile-"+what), g.pct)
 }
 
 // alloc reserves n bytes of guest memory for a well-formed structure (8-aligned). When the
@@ -254,7 +265,7 @@ func (g *gen) fd(p wasiabi.Param, idx int) uint64 {
 func (g *gen) path() string {
 	var s string
 	switch {
-	case chance(g.t, g.l("path-weird"), 25):
+	case g.hostile("path"):
 		g.nb++
 		s = pick(g.t, g.l("path"), pathsWeird)
 	default:
@@ -658,7 +669,7 @@ func TestWasiArgs(t *testing.T) {
 	knownClasses(t) // decide (and report) the known classes before generating
 	for i := range wasiabi.Table {
 		fn := &wasiabi.Table[i]
-		evid.Check(t, fn.Name, evid.Scale(400, 20000), func(rt *rapid.T) { runOne(rt, fn) })
+		evid.Check(t, fn.Name, evid.Scale(1000, 20000), func(rt *rapid.T) { runOne(rt, fn) })
 		if ntCount[fn.Name] == 0 && evid.ViolationCount() == 0 {
 			evid.Incomplete("generator health: no non-trivial case for %s in this shard", fn.Name)
 		}
